@@ -25,7 +25,11 @@ static_assert(sizeof(E) == ESZ, "element size");
 API void w_sizes(long n, long* out){
     out[0] = TbfMemoryScalar<E>::GetMemorySizeFromNbItems(1);
     out[1] = TbfMemoryVector<E>::GetMemorySizeFromNbItems(n);
+#if (ESZ % 64 == 0) || (64 % ESZ == 0)     // the multi-row kind requires (by static_assert) an element size that divides or is a multiple of the alignment
     out[2] = TbfMemoryMultiRVector<E, NROWS>::GetMemorySizeFromNbItems(n);
+#else
+    out[2] = 0;
+#endif
 #if 64 % ESZ == 0      // the multi-column kind requires (by static_assert) an element size that divides the alignment
     out[3] = TbfMemoryMultiVVector<E, NROWS>::GetMemorySizeFromNbItems(n);
 #else
@@ -36,11 +40,16 @@ API void w_sizes(long n, long* out){
 }
 API void w_addr(long n, long i, long row, unsigned char* base, long* out){
     typename TbfMemoryVector<E>::Viewer v1(reinterpret_cast<E*>(base), n);
-    typename TbfMemoryMultiRVector<E, NROWS>::Viewer v2(reinterpret_cast<E*>(base), n);
     typename TbfMemoryVector<E>::ViewerConst c1(reinterpret_cast<const E*>(base), n);
-    typename TbfMemoryMultiRVector<E, NROWS>::ViewerConst c2(reinterpret_cast<const E*>(base), n);
     out[0] = reinterpret_cast<unsigned char*>(&v1.getItem(i)) - base;
+#if (ESZ % 64 == 0) || (64 % ESZ == 0)
+    typename TbfMemoryMultiRVector<E, NROWS>::Viewer v2(reinterpret_cast<E*>(base), n);
+    typename TbfMemoryMultiRVector<E, NROWS>::ViewerConst c2(reinterpret_cast<const E*>(base), n);
     out[1] = reinterpret_cast<unsigned char*>(&v2.getItem(i, row)) - base;
+    out[4] = reinterpret_cast<const unsigned char*>(&c2.getItem(i, row)) - base;
+#else
+    out[1] = 0; out[4] = 0;
+#endif
 #if 64 % ESZ == 0
     typename TbfMemoryMultiVVector<E, NROWS>::Viewer v3(reinterpret_cast<E*>(base), n);
     out[2] = reinterpret_cast<unsigned char*>(&v3.getItem(i, row)) - base;
@@ -48,5 +57,4 @@ API void w_addr(long n, long i, long row, unsigned char* base, long* out){
     out[2] = 0;
 #endif
     out[3] = reinterpret_cast<const unsigned char*>(&c1.getItem(i)) - base;
-    out[4] = reinterpret_cast<const unsigned char*>(&c2.getItem(i, row)) - base;
 }
